@@ -291,3 +291,66 @@ func H_C08_detect(n int) {
 		verifrt.Assert(verifrt.Not(verifrt.Or(isA, isI)), "announcement-recognised")
 	}
 }
+
+// H_C08_sequence: ONE writer and ONE reader object carry a sequence of frames whose headers differ in form
+// and in every length byte: big (lo..hi words, zero payload with symbolic ends), small (0..3 symbolic words),
+// big, small.  Whatever a mode object remembers from an earlier frame (scratch buffers, lengths) must not
+// leak into a later one: every message is read back identical and in order, then end-of-stream.
+func H_C08_sequence(v, lo, hi int) {
+	a := &fakeConn{}
+	m, err := New(variantOf(v), a)
+	verifrt.Assert(err == nil, "new-no-error")
+	if err != nil {
+		return
+	}
+	var msgs [][]byte
+	for i := 0; i < 4; i++ {
+		var msg []byte
+		if i%2 == 0 {
+			w := lo + verifrt.Len(hi-lo)
+			msg = make([]byte, 4*w)
+			if w > 0 {
+				msg[0], msg[4*w-1] = verifrt.Byte(), verifrt.Byte()
+			}
+		} else {
+			msg = verifrt.Bytes(4 * verifrt.Len(3))
+		}
+		msgs = append(msgs, msg)
+		pn := verifrt.Catch(func() { err = m.WriteMsg(msg) })
+		verifrt.Assert(!pn && err == nil, "sequence-write-ok")
+		if pn || err != nil {
+			return
+		}
+	}
+	b := &fakeConn{in: a.out}
+	var peer Mode
+	pn := verifrt.Catch(func() { peer, err = Detect(b) })
+	verifrt.Assert(!pn && err == nil, "sequence-detect-ok")
+	if pn || err != nil {
+		return
+	}
+	for i := range msgs {
+		var got []byte
+		pn = verifrt.Catch(func() { got, err = peer.ReadMsg() })
+		verifrt.Assert(!pn, "sequence-read-no-panic")
+		if pn {
+			return
+		}
+		verifrt.Assert(err == nil, "sequence-read-ok")
+		if err != nil {
+			return
+		}
+		verifrt.Assert(len(got) == len(msgs[i]), "sequence-read-same-length-in-order")
+		if len(got) != len(msgs[i]) {
+			return
+		}
+		if len(got) <= 12 {
+			verifrt.Assert(verifrt.SameBytes(got, msgs[i]), "sequence-read-same-message")
+		} else {
+			verifrt.Assert(got[0] == msgs[i][0] && got[len(got)-1] == msgs[i][len(got)-1], "sequence-read-same-ends")
+		}
+	}
+	verifrt.Assert(len(b.in) == 0, "sequence-stream-fully-consumed")
+	pn = verifrt.Catch(func() { _, err = peer.ReadMsg() })
+	verifrt.Assert(!pn && err == io.EOF, "sequence-end-of-stream")
+}
